@@ -149,13 +149,16 @@ def _run(ev, work, thorough):
             if not res.ok:
                 print(res.out[-3000:])
                 raise T.TLCError("Dataset + Fault violates %s" % res.violated)
-            if not res.coverage.get("Fault"):
+            if not res.covered("Fault"):
                 raise T.TLCError("vacuity: Fault never taken")
             ev.add_tlc("Dataset + Fault at every call of every append: contract holds", res)
     # ---- 2. fault enumeration on the real code -------------------------------------------------------
     hists, res = D.export_histories(work, frames="FramesSmall" if thorough else "FramesTiny", maxops=3,
                                     ops="OpsAppend")
-    hists = [h for h in hists if h[-2]["kind"] == "append"]
+    hl, resl = D.export_histories(work, frames="FramesLong", maxops=2, ops="OpsAppend")
+    hl = [h for h in hl if len(h[0]["groups"]) >= 11]
+    ev.add_tlc("DatasetExport: appends to an 11-row-group dataset (part ids reach 10)", resl, histories=len(hl))
+    hists = [h for h in hists + hl if h[-2]["kind"] == "append"]
     ev.add_tlc("DatasetExport: write/append histories whose last append is fault-injected", res, histories=len(hists))
     jobs = [(i, h, os.path.join(work, "faults")) for i, h in enumerate(hists)]
     os.makedirs(os.path.join(work, "faults"))
